@@ -1,5 +1,6 @@
 import GV.Model.SyncLoop
 import GV.Gen.ChainSyncEraMaps
+import GV.Gen.ChainSyncLimits
 /-!
 C21 — Chain-sync delivers the server's chain updates faithfully.
 
@@ -247,35 +248,132 @@ theorem sent_determined (cfg : Nat) (hist : List Msg) (sched : List Act) (s : St
   have := this sched (St.init cfg hist) s (by simp [St.init]) h
   omega
 
-/-! ### stopping (recorded finding `stop-sendqueue-full`)
+/-! ### stopping, and the sync loop's own sends, against the engine's bounded send queue
 
-`Client.Stop` sends Done through the same bounded send queue (capacity 80) that
-holds the pipelined RequestNext messages the engine has not yet put on the wire
-(at least one request is on the wire whenever any is outstanding). -/
+`Client.Stop` sends Done, and `syncLoop` sends its batch of RequestNext, through the
+protocol engine's send queue. Its capacity and the maximum pipeline limit are
+regenerated from the source (`GV.Gen.ChainSyncLimits`). Round 1 recorded the finding
+`stop-sendqueue-full` (capacity 80 < limit 100: Stop blocked while holding its
+lifecycle mutex); it is repaired by a queue that holds a whole batch plus Done. -/
 
-/-- full clause: whenever the client is stopped, Done finds room in the send queue -/
+/-- the regenerated numbers: the send queue holds a full pipelined batch and the Done message,
+    and the default limit is the model's -/
+theorem queue_holds_batch_and_done :
+    GV.Gen.ChainSyncLimits.maxPipelineLimit + 1 ≤ GV.Gen.ChainSyncLimits.sendQueueCap ∧
+    GV.Gen.ChainSyncLimits.defaultPipelineLimit = GV.Model.SyncLoop.defaultPipelineLimit ∧
+    GV.Gen.ChainSyncLimits.defaultPipelineLimit ≤ GV.Gen.ChainSyncLimits.maxPipelineLimit ∧
+    0 < GV.Gen.ChainSyncLimits.defaultPipelineDrainTimeoutNs := by decide
+
+/-- full clause: whenever the client is stopped, Done finds room in the send queue behind
+    every request not yet answered (an upper bound of those not yet on the wire) -/
 def C21_stop_full : Prop :=
-  ∀ cfg, cfg ≤ 100 → ∀ (hist : List Msg) (sched : List Act) (s : St),
-    run (St.init cfg hist) sched = some s → doneFits (s.outstanding - 1) = true
+  ∀ cfg, cfg ≤ GV.Gen.ChainSyncLimits.maxPipelineLimit → ∀ (hist : List Msg) (sched : List Act) (s : St),
+    run (St.init cfg hist) sched = some s →
+    fitsQueue GV.Gen.ChainSyncLimits.sendQueueCap s.outstanding 1 = true
 
-/-- the part that holds: for every effective limit up to the queue capacity -/
-theorem stop_fits_partial (cfg : Nat) (hcfg : effLimit cfg ≤ sendQueueCap) (hist : List Msg)
-    (sched : List Act) (s : St) (h : run (St.init cfg hist) sched = some s) :
-    doneFits (s.outstanding - 1) = true := by
+theorem eff_le_max (cfg : Nat) (h : cfg ≤ GV.Gen.ChainSyncLimits.maxPipelineLimit) :
+    effLimit cfg ≤ GV.Gen.ChainSyncLimits.maxPipelineLimit := by
+  have := queue_holds_batch_and_done
+  unfold effLimit
+  split
+  · exact this.2.1 ▸ this.2.2.1
+  · exact h
+
+/-- **Stop never waits for room**: for every admissible limit, schedule and history. -/
+theorem stop_done_fits : C21_stop_full := by
+  intro cfg hcfg hist sched s h
   have h1 := outstanding_le_limit cfg hist sched s h
   have h2 := effLimit_pos cfg
-  unfold doneFits sendQueueCap at *
+  have h3 := eff_le_max cfg hcfg
+  have h4 := queue_holds_batch_and_done.1
+  unfold fitsQueue
   simp only [decide_eq_true_eq]
   omega
 
-/-- the witness: limit 100, one reply consumed → 101 requests issued, 1 answered,
-    20 on the wire, 80 in the queue: the queue is full and `Stop` blocks
-    (replayed on the real code: `sync ntc 100 0 0 2 FF` → stop=HANG) -/
-theorem stop_blocks_witness : ¬ C21_stop_full := by
-  intro h
-  have := h 100 (by decide) [⟨0, false⟩] [.deliver, .loop] _ rfl
-  revert this
-  decide
+/-- the sync loop's batch always fits too (it sends only when nothing it sent before is
+    unanswered beyond one request), so `syncLoop` never blocks in SendMessage holding busyMutex -/
+theorem batch_fits (cfg : Nat) (hcfg : cfg ≤ GV.Gen.ChainSyncLimits.maxPipelineLimit) (hist : List Msg)
+    (sched : List Act) (s : St) (h : run (St.init cfg hist) sched = some s)
+    (hc : s.counter = 0) (hr : s.running = true) :
+    fitsQueue GV.Gen.ChainSyncLimits.sendQueueCap s.outstanding (batch s.limit) = true := by
+  have hi := inv_run cfg hist sched _ s (inv_init cfg hist) h
+  have h1 := hi.window
+  have h3 := eff_le_max cfg hcfg
+  have h4 := queue_holds_batch_and_done.1
+  have h5 := hi.limit_eq
+  have h6 := effLimit_pos cfg
+  unfold fitsQueue St.outstanding batch
+  simp only [decide_eq_true_eq]
+  omega
+
+/-- what round 1 found: with the old capacity 80 and limit 100 the clause fails one reply in -/
+theorem old_capacity_witness :
+    ∃ (s : St), run (St.init 100 [⟨0, false⟩]) [.deliver, .loop] = some s ∧ fitsQueue 80 s.outstanding 1 = false := by
+  exact ⟨_, rfl, by decide⟩
+
+/-! ### with a block pipeline -/
+
+/-- nothing is lost, duplicated or reordered between the receive loop, the pipeline and the callbacks -/
+theorem pipeline_order_inv (sched : List PAct) : ∀ s s' : PSt, s.drains = true →
+    (∀ t, .back t ∉ s.pending.map SrvMsg.fwd) →
+    prun s sched = some s' →
+    s'.log ++ s'.pending.map SrvMsg.fwd ++ s'.hist = s.log ++ s.pending.map SrvMsg.fwd ++ s.hist ∧ s'.drains = true := by
+  induction sched with
+  | nil => intro s s' hd _ h; simp [prun] at h; subst h; exact ⟨rfl, hd⟩
+  | cons a t ih =>
+    intro s s' hd hp h
+    unfold prun at h
+    cases hst : pstep s a with
+    | none => simp [hst] at h
+    | some s1 =>
+      simp only [hst] at h
+      have key : s1.log ++ s1.pending.map SrvMsg.fwd ++ s1.hist = s.log ++ s.pending.map SrvMsg.fwd ++ s.hist ∧
+          s1.drains = true := by
+        cases a with
+        | handle =>
+          simp only [pstep] at hst
+          cases hh : s.hist with
+          | nil => simp [hh] at hst
+          | cons m r =>
+            cases m with
+            | fwd x =>
+              simp only [hh, Option.some.injEq] at hst; subst hst
+              simp [hd]
+            | back x =>
+              simp only [hh, hd, Bool.true_and] at hst
+              cases hpe : s.pending with
+              | nil =>
+                simp only [hpe, List.isEmpty_nil, Bool.not_true, Bool.false_eq_true, ↓reduceIte,
+                  Option.some.injEq] at hst
+                subst hst; simp [hd, hpe]
+              | cons y ys => simp [hpe] at hst
+        | apply =>
+          simp only [pstep] at hst
+          cases hpe : s.pending with
+          | nil => simp [hpe] at hst
+          | cons y ys =>
+            simp only [hpe, Option.some.injEq] at hst; subst hst
+            simp [hd]
+      have := ih s1 s' key.2 (by intro t ht; simp at ht) h
+      exact ⟨this.1.trans key.1, this.2⟩
+
+/-- **Faithful delivery with a block pipeline.** Under every schedule the sequence of applied
+    roll-forwards and roll-backward callbacks is a prefix of the server's history: a
+    roll-backward callback never overtakes a roll-forward still being applied. -/
+theorem pipeline_callbacks_in_order (hist : List SrvMsg) (sched : List PAct) (s : PSt)
+    (h : prun ⟨true, hist, [], []⟩ sched = some s) :
+    ∃ rest, s.log ++ rest = hist := by
+  have := (pipeline_order_inv sched ⟨true, hist, [], []⟩ s rfl (by intro t ht; simp at ht) h).1
+  exact ⟨s.pending.map SrvMsg.fwd ++ s.hist, by simpa [List.append_assoc] using this⟩
+
+/-- without the drain (what a skipped `WaitForDrain` gives) the rollback overtakes the block -/
+theorem no_drain_overtakes_witness :
+    (prun ⟨false, [.fwd 1, .back 2], [], []⟩ [.handle, .handle, .apply]).map (·.log) =
+      some [.back 2, .fwd 1] := by decide
+/-- with the drain that schedule is refused (the handler waits) and the only order is the server's -/
+example : (prun ⟨true, [.fwd 1, .back 2], [], []⟩ [.handle, .handle, .apply]).isNone = true := by decide
+example : (prun ⟨true, [.fwd 1, .back 2], [], []⟩ [.handle, .apply, .handle]).map (·.log) =
+    some [.fwd 1, .back 2] := by decide
 
 /-- closed form used by the harness for pacing: requests issued after j ≥ 1 replies
     with limit 3 are 4, 4, 4, 7, 7, 7, 10 … (checked on an initial segment) -/
